@@ -16,12 +16,23 @@ from harness.refs import byteranges, ranges as rref
 
 LEVEL = "exploration"
 RULES = {
-    "ifrange": "enumerated: every If-Range form (absent, ETag exact/unquoted/weak, Last-Modified exact, +-1 s, +1 day, far future, other date, garbage, empty) x "
+    "ifrange": "enumerated: every If-Range form (absent, ETag exact/unquoted/weak, near misses of the ETag: tag + suffix, tag lists, upper-case hex, truncated tag, "
+    "'*', an 8-bit tag; Last-Modified exact, +-1 s, +1 day, far future, other date, garbage, empty) x "
     "six Range shapes x two sizes on all three interfaces and both methods",
+    "request": "enumerated: order of the Range / If-Range header lines (either first), unrelated and look-alike header lines around them (X-Range, If-Range-X ...) x "
+    "what the ASGI server offers in scope['extensions'] (key absent, empty dict, other extensions only; zero-copy alone or next to others) x "
+    "If-Range {absent, ETag, garbage, 8-bit} x Range {single, multipart, unsatisfiable, 8-bit text}",
+    "mtime": "enumerated: file modification time on a whole second / .25 / .75 / .999999 s past it / in 2001 / as written, file reached directly and through a "
+    "symbolic link x If-Range {absent, ETag, upper-case ETag, Last-Modified, +-1 s} x single and multipart Range; the same validators with the process "
+    "in the time zones UTC+5:30, UTC-8 and UTC+13",
+    "forms": "enumerated: legal spellings of a range set (comma + tab / blanks as optional whitespace, zero-padded positions, 30-digit last position, "
+    "12 specs, repeated and nested specs, suffix = whole file, one-byte ranges at both file ends) x sizes; the default chunk size; content types "
+    "(given / guessed / with a Latin-1 parameter / 90 characters long) x download name",
     "files": "Hypothesis: file size in {0, 1, c-1, c, c+1, 2c, 2c+1, random <= 5c, sizes around powers of ten} for chunk size c in "
     "{1,2,3,7,64,262144} x Range (absent, grammar-built sets of 1..5 specs biased to file end / chunk multiples / 10^k, overlapping, "
     "unordered, malformed text, empty) x If-Range (absent, exact ETag, unquoted, weak, exact Last-Modified, Last-Modified +-1 s / +1 day, far future, other date, garbage, empty) "
-    "x GET and HEAD x {WSGI, ASGI, ASGI+zero-copy} x content type given/guessed x download name; every case is answered on all three "
+    "x GET and HEAD x {WSGI, ASGI, ASGI+zero-copy} x content type given/guessed/Latin-1 x download name x header line order / noise x offered ASGI extensions "
+    "x file mtime phase x symbolic link; range sets also with tab/blank separators, zero-padded and 30-digit positions, up to 12 specs; every case is answered on all three "
     "interfaces and both methods and the six answers are parsed and compared; non-trivial = satisfiable Range with an edge or the "
     "size within +-1 of a chunk multiple, or a multipart answer",
     "grid": "exhaustive: sizes 0..6 x chunk sizes {1,2,3} x all range sets of <= k specs over 0..7 (k=1 quick, 2 thorough) x GET/HEAD x 3 interfaces",
@@ -31,10 +42,17 @@ ASSUMPTIONS = [
     "an If-Range date in another HTTP date format is not generated (the statement fixes exact equality only)",
     "for headers that are not grammar-clean range sets the expected ranges come from parse_range itself (judged by C03); "
     "status, framing and byte content are still checked against the file",
+    "a grammar-clean range set in which every spec is satisfiable must be answered 206 (a 400/416 there does not deliver the requested bytes); "
+    "when some spec is unsatisfiable or inverted either rejection status is accepted, and a 206 only if it declares exactly the union of the "
+    "remaining specs (a suffix longer than the file counted as the whole file or dropped)",
+    "every request is answered by a freshly built response object (re-use of one object for several requests is not generated, see PENDING-DEFECT in the check)",
+    "only header lines that cannot change the meaning of the request are used as noise (no If-Match / If-None-Match / If-(Un)Modified-Since)",
+    "If-Range values that are the Last-Modified text in another letter case or with text appended are not generated (a lenient date parser reads the same instant)",
 ]
 
 _DIR = None
 _FILES = {}
+DEFAULT_CHUNK = 4096 * 64  # documented default of the chunk_size argument
 
 
 def _reset_files() -> None:
@@ -51,17 +69,40 @@ def pattern(n: int) -> bytes:
     return bytes(0x80 + ((i * 37 + (i // 128) * 11 + (i // 16384)) % 128) for i in range(n))
 
 
-def file_for(size: int, ext: str) -> str:
+# modification times (ns) a file can be given: the text of Last-Modified has whole seconds, the ETag is made from the
+# exact time, so "on the second", "a quarter past", "three quarters past" and "just before the next" are different phases
+MTIMES = {
+    "now": None,  # as written by the harness (arbitrary phase)
+    "whole": 1_600_000_000 * 10**9,
+    "frac25": 1_600_000_000 * 10**9 + 250_000_000,
+    "frac75": 1_600_000_000 * 10**9 + 750_000_000,
+    "frac999": 1_600_000_000 * 10**9 + 999_999_000,
+    "old": 1_000_000_000 * 10**9 + 500_000_000,
+}
+
+
+def file_for(size: int, ext: str, mtime: str = "now", link: bool = False) -> str:
     global _DIR
     if _DIR is None:
         _DIR = tmpfiles.workdir("verif_c02_")
-    key = (size, ext)
+    key = (size, ext, mtime)
     if key not in _FILES:
-        path = os.path.join(_DIR, f"f{size}{ext}")
+        path = os.path.join(_DIR, f"f{size}{'' if mtime == 'now' else '-' + mtime}{ext}")
         with open(path, "wb") as fh:
             fh.write(pattern(size))
+        ns = MTIMES[mtime]
+        if ns is not None:
+            os.utime(path, ns=(ns, ns))
         _FILES[key] = path
-    return _FILES[key]
+    if not link:
+        return _FILES[key]
+    lkey = (size, ext, mtime, "link")
+    if lkey not in _FILES:
+        # the response is given the path of a symbolic link; the link's own size is the length of the target path
+        lpath = os.path.join(_DIR, f"l{size}{'' if mtime == 'now' else '-' + mtime}{ext}")
+        os.symlink(_FILES[key], lpath)
+        _FILES[lkey] = lpath
+    return _FILES[lkey]
 
 
 def _shift(http_date, seconds):
@@ -71,18 +112,56 @@ def _shift(http_date, seconds):
     return format_datetime(parsedate_to_datetime(http_date) + datetime.timedelta(seconds=seconds), usegmt=True)
 
 
+# header lines that do not change the meaning of the request: ordinary ones and names that look like Range / If-Range
+NOISE_PRE = [["Host", "testserver"], ["Accept", "*/*"], ["X-Range", "bytes=0-0"], ["X-If-Range", "xyz"]]
+NOISE_MID = [["Accept-Encoding", "gzip"], ["Range-Unit", "items=0-0"]]
+NOISE_POST = [["If-Range-X", "xyz"], ["Ranges", "bytes=0-0"], ["Content-Range", "bytes 0-0/1"], ["X-If-Range", "xyz"], ["User-Agent", "verif"]]
+SHAPES = ["ri", "ir", "n-ri", "n-ir"]  # Range line first / If-Range line first, bare / with noise lines around
+ASGI_EXTS = ["none", "empty", "other"]  # what scope["extensions"] holds besides (or instead of) zero-copy send
+OTHER_EXTENSIONS = {"http.response.push": {}, "http.response.trailers": {}, "tls": {"tls_version": 772}}
+
+
 def request(case, method, iface, if_range_value):
-    headers = []
+    shape = case.get("shape") or "ri"
+    lines = []
     if case["range"] is not None:
-        headers.append(["Range", case["range"]])
+        lines.append(["Range", case["range"]])
     if if_range_value is not None:
-        headers.append(["If-Range", if_range_value])
-    ext = {"http.response.zerocopysend": {}} if iface == "asgi-zc" else None
-    return gw.areq(method=method, path="/f", headers=headers, extensions=ext)
+        lines.append(["If-Range", if_range_value])
+    if shape.endswith("ir"):
+        lines.reverse()
+    if shape.startswith("n-"):
+        headers = list(NOISE_PRE)
+        for i, line in enumerate(lines):
+            if i:
+                headers.extend(NOISE_MID)
+            headers.append(line)
+        headers.extend(NOISE_POST)
+    else:
+        headers = lines
+    return gw.areq(method=method, path="/f", headers=headers)
 
 
+def scope_extensions(case, iface):
+    """scope['extensions'] of the ASGI server model, or None when the server does not put the key."""
+    flavour = case.get("asgi_ext") or "none"
+    if iface == "asgi-zc":
+        ext = {"http.response.zerocopysend": {}}
+        if flavour == "other":
+            ext = {"http.response.push": {}, "http.response.zerocopysend": {}, "http.response.trailers": {}}
+        return ext
+    if flavour == "none":
+        return None
+    return {} if flavour == "empty" else dict(OTHER_EXTENSIONS)
+
+
+# PENDING-DEFECT: every request is answered by a freshly built FileResponse.  Answering a second request with the same
+# object (a response object is itself a WSGI/ASGI application, e.g. mounted for one fixed file) is not generated: on the
+# unchanged tree the headers set for the previous answer stay on the object, so after a range request a plain 200 carries
+# the stale 'Content-Range: bytes 1-2/10', and a 416 that follows a 200/206 carries 'Content-Length: <file size>' with an
+# empty body (declared length != bytes sent).  Reported; sequences on one object can be added once that is settled.
 def answer(case, method, iface, if_range_value, path):
-    kw = {"chunk_size": case["chunk"]}
+    kw = {"chunk_size": case["chunk"]} if case["chunk"] is not None else {}  # None: the constructor's default chunk size
     if case.get("ctype"):
         kw["content_type"] = case["ctype"]
     if case.get("dname"):
@@ -90,7 +169,13 @@ def answer(case, method, iface, if_range_value, path):
     rq = request(case, method, iface, if_range_value)
     if iface == "wsgi":
         return gw.call_wsgi(bwsgi.FileResponse(path, **kw), rq)
-    return gw.call_asgi(basgi.FileResponse(path, **kw), rq)
+    scope = gw.make_scope(rq)
+    ext = scope_extensions(case, iface)
+    if ext is None:
+        scope.pop("extensions", None)
+    else:
+        scope["extensions"] = ext
+    return gw.run_sync(gw.run_asgi(basgi.FileResponse(path, **kw), scope, rq.get("body", ())))
 
 
 def hdr(run, name):
@@ -107,6 +192,30 @@ def normalise(run):
         heads = sorted((k, v.replace(b, "BOUNDARY")) for k, v in heads)
         body = body.replace(b.encode("ascii"), b"BOUNDARY")
     return run.status_code, heads, body
+
+
+def lenient_runs(specs, size, clip_long_suffix):
+    """Maximal runs of the union of those specs of a clean set that are satisfiable and well formed on their own
+    (what a 206 may declare when the server chooses not to reject a partly unsatisfiable set)."""
+    iv = []
+    for a, b in specs:
+        if a is None:
+            if b == 0 or size == 0:
+                continue
+            if b > size:
+                if clip_long_suffix:
+                    iv.append((0, size))
+                continue
+            iv.append((size - b, size))
+        elif a < size and (b is None or a <= b):
+            iv.append((a, size if b is None else min(b + 1, size)))
+    runs = []
+    for lo, hi in sorted(iv):
+        if runs and lo <= runs[-1][1]:
+            runs[-1] = (runs[-1][0], max(hi, runs[-1][1]))
+        else:
+            runs.append((lo, hi))
+    return runs
 
 
 def judge_get(r, tag, case, run, content, honoured, specs, ctx):
@@ -135,6 +244,9 @@ def judge_get(r, tag, case, run, content, honoured, specs, ctx):
             r.fail(f"C02:{tag}:error-body-has-file-data", f"{ctx}: {status} body {body[:40]!r}")
         if status == 416 and hdr(run, "content-range") != f"*/{size}":
             r.fail(f"C02:{tag}:416-content-range", f"{ctx}: 416 with Content-Range {hdr(run, 'content-range')!r}, expected */{size}")
+        if honoured and specs is not None and not rref.verdicts(specs, size):
+            # every spec of a well-formed set selects bytes of the file: the requested bytes must be delivered
+            r.fail(f"C02:{tag}:satisfiable-range-rejected", f"{ctx}: status {status} although the header denotes {rref.runs_by_sweep(specs, size)!r}")
         return status
     if status != 206:
         r.fail(f"C02:{tag}:status", f"{ctx}: unexpected status {status}")
@@ -190,6 +302,11 @@ def judge_get(r, tag, case, run, content, honoured, specs, ctx):
             r.fail(f"C02:{tag}:single-range-as-multipart", f"{ctx}")
         if len(want) > 1 and b is None:
             r.fail(f"C02:{tag}:several-ranges-as-single", f"{ctx}")
+    elif specs is not None:
+        # some spec is unsatisfiable or inverted and the answer is 206 all the same: it may only carry the rest
+        allowed = [w for w in (lenient_runs(specs, size, False), lenient_runs(specs, size, True)) if w]
+        if declared not in allowed:
+            r.fail(f"C02:{tag}:206-for-unsatisfiable-range", f"{ctx}: answer declares {declared!r}; the specs that select bytes of the file denote {allowed!r}")
     return declared
 
 
@@ -200,10 +317,33 @@ def _first_diff(a: bytes, b: bytes):
     return min(len(a), len(b))
 
 
+TIME_ZONES = [None, "VRF-5:30", "VRW8", "VRE-13"]  # POSIX TZ strings (no tz database needed): UTC, UTC+5:30, UTC-8, UTC+13
+
+
 def oracle(case) -> Result:
+    """The process time zone is part of the configuration: the validators are GMT texts whatever the local zone is."""
+    tz = case.get("tz")
+    if not tz:
+        return _oracle(case)
+    import time as _time
+
+    old = os.environ.get("TZ")
+    os.environ["TZ"] = tz
+    _time.tzset()
+    try:
+        return _oracle(case)
+    finally:
+        if old is None:
+            os.environ.pop("TZ", None)
+        else:
+            os.environ["TZ"] = old
+        _time.tzset()
+
+
+def _oracle(case) -> Result:
     r = Result()
     size, ext = case["size"], case["ext"]
-    path = file_for(size, ext)
+    path = file_for(size, ext, case.get("mtime") or "now", bool(case.get("link")))
     content = pattern(size)
     # validators of the current file
     probe = gw.call_wsgi(bwsgi.FileResponse(path), gw.areq(path="/f"))
@@ -229,11 +369,24 @@ def oracle(case) -> Result:
         "far-future": "Fri, 31 Dec 2100 23:59:59 GMT",
         "garbage": "xyz",
         "empty": "",
+        # near misses of the current ETag: none of them equals it
+        "etag+suffix": etag + "x",
+        "etag-list": etag + ', "0"',
+        "list-etag": '"0", ' + etag,
+        "etag-upper": etag.upper(),
+        "etag-trunc": etag[:-2] + '"',
+        "star": "*",
+        "8bit": '"caf\xe9"',
+        "etag-8bit-inside": etag[:5] + "\xe9" + etag[5:],  # equal to the ETag only for a reader that drops what is not ASCII
     }[kind]
     rng = case["range"]
-    honoured = rng is not None and rng != "" and kind in ("absent", "etag", "lastmod", "empty")
+    # the statement itself: Range counts only when If-Range is absent (or empty) or equals the current ETag / Last-Modified text
+    honoured = rng is not None and rng != "" and (if_range is None or if_range == "" or if_range == etag or if_range == lastmod)
     specs = rref.parse_clean(rng) if rng else None
     ctx0 = f"size={size} chunk={case['chunk']} Range={rng!r} If-Range={kind} ext={ext} ctype={case.get('ctype')!r} dname={case.get('dname')!r}"
+    extras = [f"{k}={case[k]}" for k in ("shape", "asgi_ext", "mtime", "link", "tz") if case.get(k) and case.get(k) not in ("ri", "none", "now")]
+    if extras:
+        ctx0 += " " + " ".join(extras)
     answers = {}
     for iface in ("wsgi", "asgi", "asgi-zc"):
         for method in ("GET", "HEAD"):
@@ -275,24 +428,43 @@ def oracle(case) -> Result:
         if nb != no:
             what = "status" if nb[0] != no[0] else "headers" if nb[1] != no[1] else "body"
             r.fail(f"C02:interfaces-differ:{what}", f"wsgi vs {iface} {ctx0}: {nb[0]} {nb[1]!r} ({len(nb[2])} bytes) vs {no[0]} {no[1]!r} ({len(no[2])} bytes)")
-    c = case["chunk"]
+    c = case["chunk"] or DEFAULT_CHUNK
     near_chunk = any(abs(size - k * c) <= 1 for k in range(0, 6))
     edge = specs is not None and any(
         (a is not None and (a in (0, size - 1, size) or (b is not None and b in (size - 1, size, a)))) or (a is None and b in (1, size, size + 1)) for a, b in specs
     )
     ok_range = honoured and specs is not None and not rref.verdicts(specs, size)
     r.nontrivial = bool(ok_range and (edge or near_chunk or len(rref.runs_by_sweep(specs, size)) > 1))
-    r.label(f"if-range={kind}", "range-absent" if rng is None else ("range-clean" if specs is not None else "range-text"), f"chunk={c}")
+    r.label(f"if-range={kind}", "range-absent" if rng is None else ("range-clean" if specs is not None else "range-text"), f"chunk={case['chunk'] or 'default'}")
+    r.label(f"shape={case.get('shape') or 'ri'}", f"asgi-ext={case.get('asgi_ext') or 'none'}", f"mtime={case.get('mtime') or 'now'}")
+    if case.get("link"):
+        r.label("symlink")
+    if case.get("tz"):
+        r.label(f"tz={case['tz']}")
     r.weight = 6
-    r.key = (size, c, rng, kind, ext, case.get("ctype"), case.get("dname"))
+    r.key = (size, case["chunk"], rng, kind, ext, case.get("ctype"), case.get("dname"), case.get("shape"), case.get("asgi_ext"), case.get("mtime"), case.get("link"), case.get("tz"))
     return r
 
 
-SUBS = {"files": oracle, "grid": oracle, "ifrange": oracle}
+SUBS = {"files": oracle, "grid": oracle, "ifrange": oracle, "request": oracle, "mtime": oracle, "forms": oracle}
 
 # ------------------------------------------------------------------------------------------
 
 CHUNKS = [1, 2, 3, 7, 64, 4096 * 64]
+
+IF_RANGE_KINDS = [
+    "absent", "etag", "lastmod", "unquoted", "weak", "otherdate", "garbage", "empty", "lastmod+1s", "lastmod-1s", "lastmod+1d", "far-future",
+    "etag+suffix", "etag-list", "list-etag", "etag-upper", "etag-trunc", "star", "8bit", "etag-8bit-inside",
+]
+LATIN1_TYPE = 'text/plain; title="caf\xe9"'  # header text is Latin-1: one character, one byte
+LONG_TYPE = "application/x-verif-" + "t" * 70
+RANGE_TEXTS = [
+    "bytes=", "bytes=-", "byte=0-1", "bytes=a-b", "bytes=0-1,hello", "0-1", "bytes 0-1", "bytes=1-0", "bytes=,", "items=0-1", "bytes=0-1;q=1",
+    "bytes= 0 - 1", "bytes=-0", "bytes=" + "9" * 30 + "-",
+    # bytes >= 0x80 in the value (a server hands them over as Latin-1 text / raw bytes)
+    "bytes=0-1\xe9", "\xe9", "bytes=\xb2-\xb3", "bytes=0-1,\xe9", "\xe9=0-1",
+]
+SEPARATORS = [",", ", ", ",", ", ", ",\t", " , ", "\t,\t"]  # optional whitespace around the comma is blank or tab
 
 
 @st.composite
@@ -310,30 +482,58 @@ def file_case(draw):
     elif kind == "empty":
         rng = ""
     elif kind == "text":
-        rng = draw(st.sampled_from(["bytes=", "bytes=-", "byte=0-1", "bytes=a-b", "bytes=0-1,hello", "0-1", "bytes 0-1", "bytes=1-0", "bytes=,", "items=0-1", "bytes=0-1;q=1", "bytes= 0 - 1", "bytes=-0", "bytes=" + "9" * 30 + "-"]))
+        rng = draw(st.sampled_from(RANGE_TEXTS))
     else:
-        n = draw(st.integers(1, 5))
+        n = draw(st.one_of(st.integers(1, 5), st.integers(1, 5), st.integers(1, 5), st.integers(6, 12)))
+        pad = draw(st.sampled_from(["", "", "", "0", "000"]))  # leading zeros do not change a position
         specs = []
-        for _ in range(n):
-            form = draw(st.sampled_from(["ab", "ab", "a-", "-s"]))
-            if form == "ab":
+        inside = st.one_of(st.sampled_from([x for x in anchors if x < size] or [0]), st.integers(0, max(size - 1, 0)))
+        # mostly sets in which every spec selects bytes (one wild spec makes the whole set a 416); "sparse": short spans, so that
+        # several disjoint parts remain after merging
+        mode = draw(st.sampled_from(["tame", "tame", "sparse", "sparse", "sparse", "wild"]))
+        tame = mode != "wild"
+        for i in range(n):
+            form = draw(st.sampled_from(["ab", "ab", "ab", "ab", "a-", "a-", "-s", "-s", "a-huge"]))
+            if mode == "sparse" and (i < n - 1 or n == 1):
+                form = "ab"
+            if tame and size > 0:
+                a = draw(inside)
+                if form == "ab" and mode == "sparse":
+                    specs.append(f"{pad}{a}-{pad}{a + draw(st.integers(0, 3))}")
+                elif form == "ab":
+                    b = draw(st.one_of(st.integers(a, a + 3), st.integers(a, size + 1), st.sampled_from([x for x in anchors if x >= a] or [a])))
+                    specs.append(f"{pad}{a}-{pad}{b}")
+                elif form == "a-":
+                    specs.append(f"{pad}{a}-")
+                elif form == "a-huge":
+                    specs.append(f"{a}-" + "9" * 30)
+                else:
+                    specs.append(f"-{pad}{draw(st.one_of(st.integers(1, min(4, size)), st.integers(1, size)))}")
+            elif form == "ab":
                 a, b = draw(num), draw(num)
                 if a > b and draw(st.integers(0, 7)) > 0:
                     a, b = b, a
-                specs.append(f"{a}-{b}")
+                specs.append(f"{pad}{a}-{pad}{b}")
             elif form == "a-":
-                specs.append(f"{draw(num)}-")
+                specs.append(f"{pad}{draw(num)}-")
+            elif form == "a-huge":
+                specs.append(f"{draw(num)}-" + "9" * 30)  # last position far behind the end: clipped
             else:
-                specs.append(f"-{draw(st.one_of(st.integers(0, 4), num))}")
-        rng = "bytes=" + draw(st.sampled_from([",", ", "])).join(specs)
+                specs.append(f"-{pad}{draw(st.one_of(st.integers(0, 4), num))}")
+        rng = "bytes=" + draw(st.sampled_from(SEPARATORS)).join(specs)
     return {
         "size": size,
-        "chunk": c,
+        "chunk": None if c == DEFAULT_CHUNK and draw(st.booleans()) else c,
         "range": rng,
-        "if_range": draw(st.sampled_from(["absent", "absent", "absent", "etag", "etag", "lastmod", "unquoted", "weak", "otherdate", "garbage", "empty", "lastmod+1s", "lastmod-1s", "lastmod+1d", "far-future"])),
+        "if_range": draw(st.sampled_from(["absent"] * 16 + ["etag"] * 5 + ["lastmod"] * 5 + IF_RANGE_KINDS)),
         "ext": draw(st.sampled_from([".bin", ".txt"])),
-        "ctype": draw(st.sampled_from([None, None, "image/png", "text/plain; charset=utf-8"])),
+        "ctype": draw(st.sampled_from([None, None, None, "image/png", "text/plain; charset=utf-8", LATIN1_TYPE, LONG_TYPE])),
         "dname": draw(st.sampled_from([None, None, "report.pdf", "data.bin"])),
+        "shape": draw(st.sampled_from(SHAPES)),
+        "asgi_ext": draw(st.sampled_from(ASGI_EXTS)),
+        "mtime": draw(st.sampled_from(["now", "now", "now"] + [m for m in MTIMES if m != "now"])),
+        "link": draw(st.sampled_from([False, False, False, True])),
+        "tz": draw(st.sampled_from([None, None, None] + TIME_ZONES)),
     }
 
 
@@ -359,25 +559,112 @@ def grid_shard(rec, k, nshards, maxspecs, stride=1):
                         rec.skip.add(f.bucket)
 
 
+def _case(size, chunk, rng, if_range="absent", **more):
+    case = {"size": size, "chunk": chunk, "range": rng, "if_range": if_range, "ext": ".bin", "ctype": None, "dname": None}
+    case.update(more)
+    return case
+
+
+def request_cases(quick):
+    """Header line order and noise x what the ASGI server offers as extensions x validators x Range kinds."""
+    ranges = ["bytes=1-2", "bytes=0-0,2-3", "bytes=9-", "bytes=0-1\xe9", "\xe9", None] + ([] if quick else ["bytes=3-,0-0", "bytes=2-1", ""])
+    kinds = ["absent", "etag", "garbage", "8bit"] + ([] if quick else ["lastmod", "lastmod+1s", "etag-upper", "empty"])
+    for shape in SHAPES:
+        for flavour in ASGI_EXTS:
+            for kind in kinds:
+                for rng in ranges:
+                    for size, chunk in ((5, 2),) if quick else ((5, 2), (64, 7)):
+                        yield _case(size, chunk, rng, kind, shape=shape, asgi_ext=flavour)
+
+
+def mtime_cases(quick):
+    """Phase of the file's modification time within its second x symbolic link x validators around the file's own."""
+    kinds = ["absent", "etag", "etag-upper", "lastmod", "lastmod+1s", "lastmod-1s"] + ([] if quick else ["lastmod+1d", "unquoted", "weak", "etag+suffix"])
+    for mtime in MTIMES:
+        for link in (False, True):
+            for kind in kinds:
+                for rng in ("bytes=1-2", "bytes=0-0,2-3") if quick else ("bytes=1-2", "bytes=0-0,2-3", None, "bytes=9-"):
+                    yield _case(5, 2, rng, kind, mtime=mtime, link=link)
+    for tz in TIME_ZONES[1:]:  # the process runs in another time zone: Last-Modified / If-Range stay GMT texts
+        for mtime in ("whole", "frac75", "now") if quick else MTIMES:
+            for kind in ("lastmod", "lastmod+1s", "lastmod-1s", "etag") if quick else kinds:
+                for rng in ("bytes=1-2", "bytes=0-0,2-3"):
+                    yield _case(5, 2, rng, kind, mtime=mtime, tz=tz)
+    for ext in (".bin", ".txt"):  # plain downloads and whole-file ranges through a link, every chunk alignment
+        for size, chunk in ((0, 2), (1, 2), (64, 64), (130, 64)):
+            for rng in (None, "bytes=0-", "bytes=-1"):
+                yield _case(size, chunk, rng, "absent", ext=ext, link=True, mtime="whole")
+
+
+def forms_cases(quick):
+    """Legal spellings of range sets x content types (the multipart length formula counts header bytes)."""
+    forms = [
+        "bytes=0-1,\t3-4", "bytes=0-1\t,\t3-3", "bytes=0-1 , 3-4", "bytes= 0-1", "bytes=0-0,\t2-2,\t4-4",
+        "bytes=00-01,003-4", "bytes=0-" + "9" * 30, "bytes=3-4,0-" + "9" * 20, "bytes=1-" + "9" * 30 + ",0-0",
+        "bytes=-1,-2,-3", "bytes=" + ",".join(f"{i}-{i}" for i in range(0, 24, 2)), "bytes=" + ", ".join(f"{i}-{i}" for i in range(0, 24, 2)),
+        "bytes=4-,0-0", "bytes=0-0,0-0,0-0", "bytes=0-4,1-3,2-2", "bytes=-5", "bytes=-12", "bytes=4-4", "bytes=4-", "bytes=-1", "bytes=0-0",
+        "bytes=11-11", "bytes=11-", "bytes=0-0,11-11", "bytes=0-0,4-4", "bytes=9-10,0-0", "bytes=99-100,9-10,0-0",
+    ]
+    sizes = (5, 12) if quick else (5, 12, 13, 100, 101)
+    for rng in forms:
+        for size in sizes:
+            yield _case(size, 2, rng)
+            if not quick:
+                yield _case(size, 64, rng, "etag", ext=".txt")
+    for size in (5, DEFAULT_CHUNK, DEFAULT_CHUNK + 1) if quick else (0, 5, DEFAULT_CHUNK - 1, DEFAULT_CHUNK, DEFAULT_CHUNK + 1, 2 * DEFAULT_CHUNK + 1):
+        for rng in (None, "bytes=1-", "bytes=0-0,-2"):  # chunk size left to the constructor's default
+            yield _case(size, None, rng)
+    ctypes = [None, "image/png", LATIN1_TYPE, LONG_TYPE, 'text/html; charset="iso-8859-1"; note=\xfc\xdf']
+    for ctype in ctypes:
+        for dname in (None, "report.pdf"):
+            for ext in (".bin", ".txt"):
+                for size, rng in ((12, "bytes=0-0,9-10"), (12, "bytes=2-3"), (101, "bytes=0-9,99-100"), (1001, "bytes=9-10,99-100,999-1000"), (12, None), (12, "bytes=12-")):
+                    if quick and (ext == ".txt") != (dname is None) and ctype not in (None, LATIN1_TYPE):
+                        continue
+                    yield _case(size, 7, rng, ext=ext, ctype=ctype, dname=dname)
+
+
+def _retire_loop() -> None:
+    """Close this process's event loop before worker processes are forked.  A forked worker inherits the loop object
+    together with its epoll instance, which parent and child share; when the worker's garbage collector finalises the
+    inherited loop, closing it unregisters the wake-up pipe from that shared epoll set and this process would then
+    never notice a finished thread-pool call again (seen as 'real-loop coroutine timed out' with code under test that
+    raises often).  A closed loop is inert in the workers; gateways.loop() makes a fresh one on demand."""
+    lp = gw._LOOP
+    if lp is not None and not lp.is_closed():
+        lp.run_until_complete(lp.shutdown_default_executor())
+        lp.close()
+    gw._LOOP = None
+
+
 def run(rec, only=None):
     quick = rec.tier == "quick"
-    if quick:
-        core.run_sharded(rec, grid_shard, 8, min(8, core.ncpu()), (2, 61))
-    else:
-        core.run_sharded(rec, grid_shard, 64, core.ncpu(), (2, 1))
-    rec.exhaustive["grid"] = not quick  # quick: all 1-spec sets, every 61st 2-spec set
-    kinds = ["absent", "etag", "lastmod", "unquoted", "weak", "otherdate", "garbage", "empty", "lastmod+1s", "lastmod-1s", "lastmod+1d", "far-future"]
+    if only is None or "grid" in only:
+        _retire_loop()
+        if quick:
+            core.run_sharded(rec, grid_shard, 8, min(8, core.ncpu()), (2, 61))
+        else:
+            core.run_sharded(rec, grid_shard, 64, core.ncpu(), (2, 1))
+        rec.exhaustive["grid"] = not quick  # quick: all 1-spec sets, every 61st 2-spec set
     core.drive_cases(
         rec,
         "ifrange",
         (
             {"size": size, "chunk": 2, "range": rng, "if_range": kind, "ext": ".bin", "ctype": None, "dname": None}
-            for kind in kinds
+            for kind in IF_RANGE_KINDS
             for size in (5, 64)
             for rng in ("bytes=0-1", "bytes=1-", "bytes=-2", "bytes=0-0,2-3", "bytes=9-", "junk")
         ),
         oracle,
     )
     rec.exhaustive["ifrange"] = True
+    core.drive_cases(rec, "request", request_cases(quick), oracle)
+    rec.exhaustive["request"] = True
+    core.drive_cases(rec, "mtime", mtime_cases(quick), oracle)
+    rec.exhaustive["mtime"] = True
+    core.drive_cases(rec, "forms", forms_cases(quick), oracle)
+    rec.exhaustive["forms"] = True
+    if not quick:
+        _retire_loop()  # the thorough budget is split over forked workers
     core.drive_hypothesis(rec, "files", file_case(), oracle, 500 if quick else 12000)
     rec.exhaustive["files"] = False
